@@ -72,7 +72,8 @@ pub fn big_message(u: &mut Unstructured, o: MsgOpts) -> GenMsg {
     // a few named records after the padding, with pointers to early names
     let first_name_off = 12usize;
     let nq = u16::from_be_bytes([g.bytes[4], g.bytes[5]]);
-    for _ in 0..pick(u, 4) {
+    let mut late_off: Option<usize> = None;
+    for _ in 0..pick(u, 6) {
         if g.bytes.len() + 40 > 65535 || ar_new == 0xFFFF {
             break;
         }
@@ -84,8 +85,22 @@ pub fn big_message(u: &mut Unstructured, o: MsgOpts) -> GenMsg {
             g.layout.pointer_offsets.push(g.bytes.len());
             g.bytes.extend_from_slice(&(0xC000u16 | first_name_off as u16).to_be_bytes());
             owner = g.questions[0].0.clone();
+        } else if let (Some(off), true) = (late_off, flag(u)) {
+            // pointer to a name that was written late in the message: the
+            // target offset is >= 1024 (and < 0x4000), i.e. it needs more
+            // than 10 bits of the pointer
+            g.layout.pointer_offsets.push(g.bytes.len());
+            let child = chance(u, 128);
+            if child {
+                g.bytes.extend_from_slice(&[3, b'w', b'w', b'w']);
+            }
+            g.bytes.extend_from_slice(&(0xC000u16 | off as u16).to_be_bytes());
+            owner = if child { vec![b"www".to_vec(), b"late".to_vec(), b"example".to_vec()] } else { vec![b"late".to_vec(), b"example".to_vec()] };
         } else {
             owner = vec![b"late".to_vec(), b"example".to_vec()];
+            if g.bytes.len() < 0x4000 && late_off.is_none() {
+                late_off = Some(g.bytes.len());
+            }
             g.bytes.extend(name::to_wire(&owner));
         }
         let rd = vec![192, 0, 2, byte(u)];
